@@ -1912,3 +1912,47 @@ Example observer_duplicates :
   exists tr, run_net observer_case = Ok tr /\
              sids SS (flat_map cr_log tr) = [0; 1] /\ obs_ids SS (flat_map cr_log tr) = [1; 1].
 Proof. eexists. split; [vm_compute; reflexivity|]. split; vm_compute; reflexivity. Qed.
+
+(* ---- the completion event that becomes awaited carries the announced identifier ---- *)
+Theorem service_start_awaits_its_identifier : forall tasks env f ai s u s',
+    on_service_started tasks env (S f) ai s = Ok (u, s') ->
+    exists u1 s1 id,
+      oss_prefix tasks ai s = Ok (u1, s1) /\ uuid_at ai s1 = Some id /\
+      notify_user tasks env f SS ai false (s1 <| ns_awaited := ns_awaited s1 ++ [EvFinish id] |>) = Ok (u, s').
+Proof.
+  intros tasks env f ai s u s' H. rewrite on_service_started_split in H.
+  ninv H as u1 s1 E. exists u1, s1. unfold oss_announce in H.
+  ninv H as a' s2 E1. apply get_api_inv in E1. destruct E1 as [-> Ea'].
+  ninv H as u2 s3 E1. okinv E1.
+  exists (a_uuid a'). split; [exact E|]. split; [unfold uuid_at; rewrite Ea'; reflexivity|exact H].
+Qed.
+
+(* in test-id mode that identifier is ITest (old ns_sid), the one function 0 is told *)
+Corollary service_start_awaits_counter : forall tasks env f ai s u s',
+    ns_test_ids s = true ->
+    on_service_started tasks env (S f) ai s = Ok (u, s') ->
+    exists u1 s1,
+      oss_prefix tasks ai s = Ok (u1, s1) /\
+      notify_user tasks env f SS ai false
+                  (s1 <| ns_awaited := ns_awaited s1 ++ [EvFinish (ITest (ns_sid s))] |>) = Ok (u, s').
+Proof.
+  intros tasks env f ai s u s' T H.
+  destruct (service_start_awaits_its_identifier _ _ _ _ _ _ _ H) as (u1 & s1 & id & H1 & H2 & H3).
+  exists u1, s1. split; [exact H1|].
+  destruct (started_service_gets_counter tasks ai s u1 s1 T H1) as (H4 & _). rewrite H4 in H2.
+  inversion H2; subst id. exact H3.
+Qed.
+
+(* ---- NOT proved: C14 in UUID mode ----
+   In UUID mode an instance outside loops keeps the identifier drawn by the generator, so
+   uniqueness over a history needs that such an instance is started at most once per order --
+   a fact about the structure of the generated net, not about the identifier bookkeeping.
+   The statement (for function 0, like [run_net_ids_unique]): *)
+Definition uuid_mode_unique_statement : Prop :=
+  forall tasks env f cs s0 tr,
+    net_init tasks false = Ok s0 ->
+    net_run_script tasks env f s0 cs = Ok tr ->
+    NoDup (sids TS (flat_map cr_log tr)) /\ NoDup (sids SS (flat_map cr_log tr)).
+
+(* what IS proved in UUID mode: every identifier drawn at a start is IUuid of the fresh counter,
+   which only grows ([new_test_or_uuid_uuid], NetQuiescent.counters_grow) *)
